@@ -100,6 +100,14 @@ func (fr *frame) backEdge(from, hdr *ssa.BasicBlock, cond string, st *state) {
 		}
 	}
 	env := fr.loopEnv(li, func(phi *ssa.Phi) string { return fr.val(phi.Edges[idx]) }, st)
+	// at a back edge, locals defined in the loop body are visible too (used by step clauses)
+	hdrLookup := env.lookup
+	env.lookup = func(name string) (binding, bool) {
+		if b, ok := hdrLookup(name); ok {
+			return b, true
+		}
+		return fr.lookupLocal(name, from, st)
+	}
 	env.prevOf = func(name string) (binding, bool) {
 		for _, instr := range hdr.Instrs {
 			phi, ok := instr.(*ssa.Phi)
@@ -280,6 +288,7 @@ func (fr *frame) instr(ins ssa.Instruction, bc string, st *state) {
 		bx, ub := e.st.boxFns(so)
 		id := e.st.typeID(i.X.Type())
 		fr.setVal(i, app("mk-iface", intLit64(int64(id)), app(bx, x)))
+		e.ifaceType[fr.vals[i]] = id // statically known dynamic type: lets contract clauses on other kinds be dropped
 		e.assume(eq(app(ub, app(bx, x)), x))
 	case *ssa.TypeAssert:
 		fr.typeAssert(i, bc, st)
@@ -1193,6 +1202,9 @@ func (e *Enc) product(u, v string) {
 				e.assume(implies(and(app(">=", pc, "0"), app("<=", no, po)), app("<=", app("*", no, pc), app("*", po, pc))))
 				e.assume(implies(and(app(">=", pc, "0"), app("<", po, no)), app("<=", app("+", app("*", po, pc), pc), app("*", no, pc))))
 				e.assume(implies(and(app(">=", pc, "0"), app("<", no, po)), app("<=", app("+", app("*", no, pc), pc), app("*", po, pc))))
+				// exact successor instances of distributivity: (x+1)*c == x*c + c
+				e.assume(implies(eq(no, app("+", po, "1")), eq(app("*", no, pc), app("+", app("*", po, pc), pc))))
+				e.assume(implies(eq(po, app("+", no, "1")), eq(app("*", po, pc), app("+", app("*", no, pc), pc))))
 			}
 		}
 	}
